@@ -18,6 +18,9 @@ PortOut(u, recs) == IF u.port # 0 THEN u.port ELSE DefaultPort(SchemeOut(u, recs
 PoolKey(u, recs) == <<PortOut(u, recs), SchemeOut(u, recs), u.host>>
 HostHeader(u) == IF u.hh # "" THEN <<u.hh, 0>> ELSE <<u.host, u.port>>   \* the caller's Host header, else the original authority
 Sni(u) == u.host
+\* the port a record WITHOUT a port= parameter is dialled at: the URL's, where the http default (written out or not) has become
+\* the https default with the upgrade (RFC 9460 section 9.5). 0: not specified here (an https URL naming port 80).
+DialPort(u) == IF u.port = 0 THEN 443 ELSE IF u.port = 80 THEN (IF u.scheme = "http" THEN 443 ELSE 0) ELSE u.port
 
 RECURSIVE H3Loop(_, _)
 H3Loop(recs, i) ==
@@ -38,7 +41,7 @@ KeepFor(r, useH3) ==
 Kept(recs, useH3) == {i \in DOMAIN recs : KeepFor(recs[i], useH3)}
 
 Out(u, recs, h3) == [scheme |-> SchemeOut(u, recs), key |-> PoolKey(u, recs), host |-> HostHeader(u), sni |-> Sni(u),
-                     useH3 |-> UseH3(recs, h3), kept |-> Kept(recs, UseH3(recs, h3)),
+                     useH3 |-> UseH3(recs, h3), kept |-> Kept(recs, UseH3(recs, h3)), dport |-> DialPort(u),
                      plaintext |-> SchemeOut(u, recs) = "http"]
 
 \* ---- the rules
